@@ -46,6 +46,24 @@ where T: Canon + Encode<()> + CborLen<()> + for<'b> Decode<'b, ()>
     }
     // determinism
     if minicbor::to_vec(&v).ok().as_deref() != Some(&bytes[..]) { verdict = Err("nondeterministic encoding".into()) }
+    // the forwarding impls: by value (T), &mut T and Box<&T> write and count the same bytes as &T; Encoder::encode / encode_with
+    // and to_vec_with / len_with agree with the plain entry points
+    {
+        let mut w = v;
+        let nm = minicbor::len(&mut w);
+        let bm = minicbor::to_vec(&mut w).ok();
+        if bm.as_deref() != Some(&bytes[..]) || nm != n { verdict = Err("Encode / CborLen for &mut T disagree with &T".into()) }
+        let bx = Box::new(&w);
+        if minicbor::to_vec(&bx).ok().as_deref() != Some(&bytes[..]) || minicbor::len(&bx) != n { verdict = Err("Encode / CborLen for Box<T> disagree with T".into()) }
+        let mut e = minicbor::Encoder::new(Vec::new());
+        if e.encode_with(&w, &mut ()).is_err() || e.writer().as_slice() != &bytes[..] { verdict = Err("Encoder::encode_with disagrees with to_vec".into()) }
+        if minicbor::to_vec_with(&w, &mut ()).ok().as_deref() != Some(&bytes[..]) || minicbor::len_with(&w, &mut ()) != n { verdict = Err("to_vec_with / len_with disagree with to_vec / len".into()) }
+        let r2: Result<T, _> = minicbor::decode(&bytes);
+        let r3: Result<T, _> = minicbor::decode_with(&bytes, &mut ());
+        let sh = |r: &Result<T, minicbor::decode::Error>| match r { Ok(x) => x.show(), Err(e) => classify(e) };
+        let r1s = match &r { Ok(x) => x.show(), Err(e) => classify(e) };
+        if sh(&r2) != r1s || sh(&r3) != r1s { verdict = Err("minicbor::decode / decode_with disagree with Decoder::decode".into()) }
+    }
     let pos = d.position();
     with_oracle(format!("{};{};len={}", hex(&bytes), show_res(r, pos, |x| x.show()), n), verdict)
 }
